@@ -81,8 +81,9 @@ def align_shape(*polys: PolyLike) -> Tuple[ndpoly, ...]:
     """
     # return tuple(numpoly.broadcast_arrays(*polys))
     polys_ = [numpoly.aspolynomial(poly) for poly in polys]
+    # boolean ones: multiplying by them broadcasts without promoting the dtype
     common = numpy.ones(
-        numpy.broadcast_shapes(*[poly.shape for poly in polys_]), dtype=int
+        numpy.broadcast_shapes(*[poly.shape for poly in polys_]), dtype=bool
     )
 
     for idx, poly in enumerate(polys_):
